@@ -1,5 +1,6 @@
 # Primitives.v : the primitive library (import-and-dump of names, types, ordered port names and widths)
-# and the two ideal-primitive name maps (ast of the dict literals in exporting.py / importing.py).
+# and the two ideal-primitive name maps (behaviour of exporting.py / importing.py on every primitive / element; the
+# literal tables of the source, wherever they stand, give the order and must agree).
 import ast
 
 
@@ -17,19 +18,10 @@ def _run():
     if len(entries) < 10:
         die("primitive registry unexpectedly small")
 
-    def str_dict(tree, fname):
-        d = dict_in_func(tree, fname, "prim_map")
-        out = []
-        for k, v in zip(d.keys, d.values):
-            if not (isinstance(k, ast.Constant) and isinstance(v, ast.Constant) and isinstance(k.value, str) and isinstance(v.value, str)):
-                die(f"{fname}: prim_map is not a dict of string constants")
-            out.append((k.value, v.value))
-        if len(set(k for k, _ in out)) != len(out):
-            die(f"{fname}: duplicate keys in prim_map")
-        return out
-
-    exp = str_dict(src("hdl21/proto/exporting.py"), "export_instance")
-    imp = str_dict(src("hdl21/proto/importing.py"), "import_vlsir_primitive")
+    # the two name maps: behaviour of the exporter / importer on every key, ordered by the literal tables of the source when
+    # those are recognisable (translate_tables.py: prim_export_reading / prim_import_reading)
+    exp = prim_export_reading()
+    imp = prim_import_reading()
     body = "Definition primitives : list (string * string * list (string * Z)) :=\n  [" + ";\n   ".join(
         f"({cstr(n)}, {cstr(t)}, [" + "; ".join(f"({cstr(p)}, {cz(w)})" for p, w in ps) + "])" for n, t, ps in entries) + "].\n"
     body += "Definition prim_map_export : list (string * string) :=\n  [" + ";\n   ".join(f"({cstr(k)}, {cstr(v)})" for k, v in exp) + "].\n"
